@@ -32,7 +32,8 @@ type c11TxCase struct {
 	Kinds         string `json:"kinds"`   // one letter per statement: e(xec) q(uery) p(repared exec) r(prepared query)
 	BeginFault    bool   `json:"begin_fault,omitempty"`
 	StmtFault     int    `json:"stmt_fault"`         // -1 none, else 0-based ordinal of the failing statement
-	Reaction      string `json:"reaction,omitempty"` // propagate swallow panic: what the body does with a statement error
+	Reaction      string `json:"reaction,omitempty"` // propagate swallow panic notfound-continue: what the body does with a statement error
+	IterFault     bool   `json:"iter_fault,omitempty"` // the fault of statement StmtFault (a single-row query) hits the fetch of its first row, not the call
 	CommitFault   bool   `json:"commit_fault,omitempty"`
 	RollbackFault bool   `json:"rollback_fault,omitempty"`
 }
@@ -47,6 +48,9 @@ type c11TxObs struct {
 	pv         any
 	events     []c11Event // driver events of this transaction only
 	stmtErrors int
+	// single-row query whose first-row fetch failed at the driver: what the body was told
+	iterAsNotFound bool
+	iterSwallowed  bool
 }
 
 var (
@@ -109,9 +113,19 @@ func c11RunTx(c c11TxCase, conn sqlx.Conn, rec *c11Rec) c11TxObs {
 		o.bodyCalls++
 		o.bodyKind, o.bodyErr = "panic", nil // overwritten on every normal return
 		for i := 0; i < c.K; i++ {
-			if e := c11RunStmt(ctx, s, c.Kinds[i], i); e != nil {
+			e := c11RunStmt(ctx, s, c.Kinds[i], i)
+			if c.IterFault && i == c.StmtFault {
+				o.iterSwallowed = e == nil
+				o.iterAsNotFound = errors.Is(e, sqlx.ErrNotFound)
+			}
+			if e != nil {
 				o.stmtErrors++
 				switch c.Reaction {
+				case "notfound-continue": // "does not exist yet, go on"; anything else aborts
+					if !errors.Is(e, sqlx.ErrNotFound) {
+						o.bodyKind, o.bodyErr = "error", e
+						return e
+					}
 				case "propagate":
 					o.bodyKind, o.bodyErr = "error", e
 					return e
@@ -184,6 +198,12 @@ func c11JudgeTx(m *vk.M, desc string, o c11TxObs) (class string, violated bool) 
 	}
 	if o.bodyCalls != 1 {
 		return v("C11:tx:body-calls", "transaction began but the supplied function ran %d times", o.bodyCalls)
+	}
+	if o.iterAsNotFound {
+		return v("C11:tx:stmt:iteration-error-reported-as-ErrNotFound", "the driver failed while fetching the first row of a single-row query in the transaction session; the body was told ErrNotFound (empty result)")
+	}
+	if o.iterSwallowed {
+		return v("C11:tx:stmt:iteration-error-swallowed", "the driver failed while fetching the first row of a single-row query in the transaction session; the body was told nil")
 	}
 	cid := -1
 	for _, e := range o.events {
@@ -266,7 +286,9 @@ func c11ArmFaults(rec *c11Rec, c c11TxCase, base map[string]int) {
 	if c.BeginFault {
 		rec.fault("begin", base["begin"], errors.New("c11 fault begin"))
 	}
-	if c.StmtFault >= 0 {
+	if c.StmtFault >= 0 && c.IterFault {
+		rec.iterFault(base["stmt"]+c.StmtFault, 0)
+	} else if c.StmtFault >= 0 {
 		rec.fault("stmt", base["stmt"]+c.StmtFault, fmt.Errorf("c11 fault stmt#%d", c.StmtFault))
 	}
 	if c.CommitFault {
@@ -319,6 +341,18 @@ func c11TxTable() []c11TxCase {
 								}
 							}
 						}
+						if sf >= 0 && base.Kinds[sf] == 'q' {
+							// the same statement fails while its first row is fetched (driver.Rows.Next)
+							for _, re := range []string{"propagate", "notfound-continue"} {
+								for _, cf := range []bool{false, true} {
+									for _, rf := range []bool{false, true} {
+										c := base
+										c.StmtFault, c.Reaction, c.CommitFault, c.RollbackFault, c.IterFault = sf, re, cf, rf, true
+										out = append(out, c)
+									}
+								}
+							}
+						}
 					}
 				}
 			}
@@ -329,10 +363,11 @@ func c11TxTable() []c11TxCase {
 
 // TestVerifC11TxTable walks the complete, finite table: body outcome in {nil, error,
 // panic(error), panic(string), runtime panic} at every statement position k <= n <= 3
-// x fault in {none, Begin, statement j < k with body reaction propagate/swallow/panic}
+// x fault in {none, Begin, statement j < k with body reaction propagate/swallow/panic,
+// first-row fetch of a single-row query j < k with reaction propagate/notfound-continue}
 // x Commit fault x Rollback fault x the four public entry points.
 func TestVerifC11TxTable(t *testing.T) {
-	m := vk.New(t, "C11", "complete table: entry point {sqlx,sqlc}.{Transact,TransactCtx} x body of n<=3 statements (exec/query/prepared) x outcome {nil,error,panic(error),panic(string),runtime panic} at every position k<=n x driver fault {none, Begin, statement j<k with body reaction propagate|swallow|panic} x Commit fault x Rollback fault, on a recording database/sql driver; oracle per transaction: nil <=> one successful Commit and no Rollback, otherwise one Rollback and no Commit (one failed Commit returned; neither if Begin failed), body error returned unless Rollback failed too, panic never nil; non-trivial = a transaction reached the driver")
+	m := vk.New(t, "C11", "complete table: entry point {sqlx,sqlc}.{Transact,TransactCtx} x body of n<=3 statements (exec/query/prepared) x outcome {nil,error,panic(error),panic(string),runtime panic} at every position k<=n x driver fault {none, Begin, statement j<k with body reaction propagate|swallow|panic, first-row fetch (driver.Rows.Next) of single-row query j<k with body reaction propagate|continue-on-ErrNotFound} x Commit fault x Rollback fault, on a recording database/sql driver; oracle per transaction: nil <=> one successful Commit and no Rollback, otherwise one Rollback and no Commit (one failed Commit returned; neither if Begin failed), body error returned unless Rollback failed too, panic never nil, a failed first-row fetch is reported to the body as an error that is not ErrNotFound; non-trivial = a transaction reached the driver")
 	defer m.Done()
 	table := c11TxTable()
 	classes := map[string]int64{}
@@ -487,6 +522,10 @@ func TestVerifC11TxHistories(t *testing.T) {
 			if c.K > 0 && r.Intn(3) == 0 {
 				c.StmtFault = r.Intn(c.K)
 				c.Reaction = reactions[r.Intn(len(reactions))]
+				if c.Kinds[c.StmtFault] == 'q' && r.Intn(2) == 0 {
+					c.IterFault = true
+					c.Reaction = []string{"propagate", "notfound-continue"}[r.Intn(2)]
+				}
 			}
 			c.CommitFault = r.Intn(4) == 0
 			c.RollbackFault = r.Intn(4) == 0
@@ -513,6 +552,7 @@ func TestVerifC11TxHistories(t *testing.T) {
 			}
 			// faults armed for an earlier transaction but never reached must not leak into this one
 			rec.faults = map[string]map[int]error{}
+			rec.iter = nil
 			rec.mu.Unlock()
 			c11ArmFaults(rec, c, base)
 			o := c11RunTx(c, conn, rec)
